@@ -1019,13 +1019,21 @@ def string_recipe(body, operand):
                 out.append(piece)
         return out
     if is_call(t) and t[3] in ('concat', 'join') and t[2]:
-        if t[3] == 'join' and not (len(t[2]) > 1 and const_val(strip_refs(t[2][1])) == ''):
-            return None
+        sep = None
+        if t[3] == 'join':
+            sep = const_val(strip_refs(t[2][1])) if len(t[2]) > 1 else None
+            if not isinstance(sep, str):
+                return None
         arr = strip_refs(t[2][0])
         while arr and arr[0] == 'cast' and len(arr) > 2:
             arr = strip_refs(arr[2])
         if arr and arr[0] == 'agg' and arr[1].get('kind') == 'array':
-            return [_str_piece(e) for e in arr[2]]
+            out = []
+            for i_, e in enumerate(arr[2]):
+                if i_ and sep:
+                    out.append(sep)
+                out.append(_str_piece(e))
+            return out
         return None
     if is_call(t) and t[3] in ('to_owned', 'to_string', 'from', 'into', 'clone') and len(t[2]) == 1:
         return [_str_piece(t[2][0])]
